@@ -11,7 +11,9 @@
    SUMMARY prints lines "M <method> declared=.. uses=.. uses_ok=.. refs=..", "R <order> <entry> <0|1>",
    "S <method> <order> <entry> <0|1>" (only failures for R and S), "D dispatch_ok=<0|1>",
    "K <callback class> <has the dummy typedef>", "D callback_classes_ok=<0|1>", "D derefs_ok=<0|1> sites=<n>", "X <file> | <snippet>" for every dereference of a
-   data iterator that is not a callback argument, "END". *)
+   data iterator that is not a callback argument, "D adapters_ok=<0|1> classes=<n>", "A <adapter class> <member> <0|1>" for the members of
+   every adapter class that fails its decider, "D callsites_ok=<0|1> sites=<n>", "Y <file> | <snippet>" for every callback call
+   whose data argument is not a dereference of a data iterator, "END". *)
 open C13_model
 
 let ascii_of_char c =
@@ -108,6 +110,18 @@ let summary () =
   Printf.printf "D wrappers_ok=%s\n" (b01 (wrappers_ok chain_gen u));
   Printf.printf "D derefs_ok=%s sites=%d\n" (b01 (derefs_ok u)) (List.length u.u_derefs);
   List.iter (fun ((f, sn), ok) -> if not ok then Printf.printf "X %s | %s\n" (of_coq f) (of_coq sn)) u.u_derefs;
+  (* the adapters and the callback call sites (Chain_Adapt_Spec) *)
+  let a = adapters_gen in
+  Printf.printf "D adapters_ok=%s classes=%d\n" (b01 (adapters_ok a)) (List.length a.ad_classes);
+  List.iter (fun c ->
+    match family_of c.ac_name with
+    | None -> Printf.printf "A %s - 0\n" (of_coq c.ac_name)
+    | Some fam ->
+      if not (class_ok c) then
+        List.iter (fun mb -> Printf.printf "A %s %s %s\n" (of_coq c.ac_name) (of_coq mb.am_name) (b01 (member_ok c fam mb)))
+          c.ac_members) a.ad_classes;
+  Printf.printf "D callsites_ok=%s sites=%d\n" (b01 (callsites_ok a)) (List.length a.ad_callsites);
+  List.iter (fun ((f, sn), ok) -> if not ok then Printf.printf "Y %s | %s\n" (of_coq f) (of_coq sn)) a.ad_callsites;
   print_endline "END"
 
 let () =
